@@ -279,7 +279,8 @@ pub fn check(c: &mut Case, flags: u32, specs: &[AssetSpec], name: &str) {
     }
     // round trip through the library
     let back = c.lib("BinArchive::from_bytes + AssetBinary::from_archive", || -> Result<AssetBinary, String> {
-        let arch = BinArchive::from_bytes(&img, Endian::Little).map_err(|e| e.to_string())?;
+        let img_t = crate::monitor::tight(&img);
+        let arch = BinArchive::from_bytes(&img_t, Endian::Little).map_err(|e| e.to_string())?;
         AssetBinary::from_archive(&arch).map_err(|e| e.to_string())
     });
     match back {
